@@ -154,6 +154,7 @@ FIRING = [
     ("stoch-ma-on-nan-warm-up", "jesse/indicators/stochastic.py", "    k = _ma_after_warmup(stoch_val, slowk_period, slowk_matype)\n", "    k = ma(stoch_val, period=slowk_period, matype=slowk_matype, sequential=True)\n", ["C15"]),
     ("tsf-period-one", "jesse/indicators/tsf.py", "        if len(source) < period or period < 2:\n", "        if len(source) < period:\n", ["C14"]),
     ("add-multiple-inner-chunk-refused", "jesse/store/state_candles.py", "        elif candles[0, 0] >= arr[0][0] and candles[-1, 0] < arr[-1][0]:\n", "        elif False and candles[0, 0] >= arr[0][0] and candles[-1, 0] < arr[-1][0]:\n", ["C20"]),
+    ("research-candles-in-caller-order", "jesse/research/backtest.py", "    trading_candles_dict = {k: copied_candles[k] for k in ordered_keys}\n", "    trading_candles_dict = {k: v for k, v in copied_candles.items()}\n", ["C11"]),
     ("dna-append-multiple-empty", "jesse/libs/dynamic_numpy_array/__init__.py", "        if len(items) == 0:\n            return\n", "", ["C18"]),
     ("dna-delete-raw-index", "jesse/libs/dynamic_numpy_array/__init__.py", "        if index < 0:\n            index = (self.index + 1) - abs(index)\n        if index > self.index or index < 0:\n            raise IndexError('list assignment index out of range')\n\n        self.array = np.delete", "        self.array = np.delete", ["C18"]),
 ]
@@ -426,4 +427,9 @@ SILENT += [
                     store.orders.update_active_orders(candles[jj]['exchange'], candles[jj]['symbol'])
                 _execute_market_orders()
 """)], None, ["C02", "C05", "C12", "C01"]),
+]
+
+# ---- the dict handed to the simulator ordered by sorted keys instead of route order: still independent of the caller's order
+SILENT += [
+    ("research-candles-sorted-keys", "jesse/research/backtest.py", [("    trading_candles_dict = {k: copied_candles[k] for k in ordered_keys}\n", "    trading_candles_dict = {k: copied_candles[k] for k in sorted(copied_candles)}\n")], None, ["C11", "C20"]),
 ]
